@@ -46,6 +46,13 @@ Definition stopped (o : op) (b : sx) : bool :=
   | _, _ => false
   end.
 
+(* the harness refused to run a tick step (too many ticks for one step) *)
+Definition refused (o : op) (b : sx) : bool :=
+  match o, b with
+  | Tick, SList [SInt 3] => true
+  | _, _ => false
+  end.
+
 Definition row_of (x : wnode) : list Z := [wlvl x; wslot x; nid (wn x); ndl (wn x); nper (wn x)].
 
 Fixpoint rows_eqb (a : list wnode) (b : list sx) : bool :=
@@ -144,6 +151,7 @@ Fixpoint go (ops : list op) (obs : list sx) (m : st) (z : sst) (v : verdict) : v
   match ops, obs with
   | [], [] => v
   | o :: ops', b :: obs' =>
+      if refused o b then vjoin v VBad else
       let '(m', mo) := step m o in
       let '(z', zo) := sstep z o in
       let v' := vjoin v (vjoin (cmp_spec z o zo b) (cmp_model o mo b)) in
